@@ -63,7 +63,18 @@ func (m *hotReloadManager) startServer() error {
 
 // prepareDevServer loads the source and builds the development server (with
 // live reload support) without starting to listen.
-func (m *hotReloadManager) prepareDevServer() (*http.Server, bool, error) {
+func (m *hotReloadManager) prepareDevServer() (srv *http.Server, compiled bool, err error) {
+	// Building the new version must not be able to take the process (and with
+	// it the version that is running) down. http.ServeMux panics on duplicate
+	// or malformed patterns, which a program that parses fine can produce
+	// (two `@ ws /chat` blocks, `@ ws /`), and a reload runs on a timer
+	// goroutine where nothing else would recover it.
+	defer func() {
+		if r := recover(); r != nil {
+			srv, compiled, err = nil, false, fmt.Errorf("invalid program: %v", r)
+		}
+	}()
+
 	// Read source file
 	source, err := os.ReadFile(m.filePath)
 	if err != nil {
@@ -110,7 +121,7 @@ func (m *hotReloadManager) prepareDevServer() (*http.Server, bool, error) {
 		return nil, false, err
 	}
 
-	srv := &http.Server{
+	srv = &http.Server{
 		Addr:           listenAddr(m.port),
 		Handler:        loggingMiddleware(mux),
 		ReadTimeout:    15 * time.Second,
